@@ -6,7 +6,9 @@
     is the primary's image;
   * when the service is ahead of, or on another history than, the primary, the sync does not
     change what the service holds: the primary ends at the service's position;
-  * the published high-water mark never exceeds the service's position.
+  * the published high-water mark never exceeds the service's position;
+  * (C09, retention with a backup service) a retention sweep never removes the newest file nor a
+    file holding a transaction above the high-water mark (not yet confirmed by the service).
 -/
 import LiteFSVerif.Driver.EngineSpecD
 
@@ -25,6 +27,9 @@ structure St where
   syncedSince : Bool := false   -- a sync has run since the service was last tampered with
   wasSynced : Bool := false     -- ... as of the pending sync's start
   dead : Bool := false
+  lastLtx : List (Nat × Nat) := []        -- (first, last TXID) of the files in the last `ltx` listing
+  lastHwm : Option Nat := none
+  retainFrom : Option (List (Nat × Nat) × Option Nat) := none   -- listing and mark just before a retention sweep
 
 def svcPosOf (obs : String) : Option (Nat × Spec.Chk) := (fieldOf (words obs) "pos") >>= parsePos
 
@@ -71,7 +76,26 @@ def check (st : St) (op obs : String) : St × String :=
        if p = s ∧ p.1 ≠ 0 ∧ a ≠ b then (st1, s!"FAIL the image restored from the service ({b}) differs from the primary's ({a}) at the same position")
        else (st1, "ok")
      | _, _, _, _ => (st1, "ok"))
+  | ["retain"] => ({ st with retainFrom := some (st.lastLtx, st.lastHwm), afterSync := 0 }, "ok")
+  | ["ltx"] =>
+    let now : List (Nat × Nat) := match parseListing obs with
+      | some l => l.map fun e => (e.1.minTxid, e.1.maxTxid)
+      | none => []
+    let st1 := { st with lastLtx := now, retainFrom := none }
+    (match st.retainFrom with
+     | some (before, hwm) =>
+       let removed := before.filter fun f => !now.contains f
+       let newest := before.foldl (fun m f => max m f.2) 0
+       if removed.any (fun f => f.2 == newest) then (st1, "FAIL retention removed the newest transaction file")
+       else match hwm with
+         | some h =>
+           (match removed.find? (fun f => f.2 > h) with
+            | some f => (st1, s!"FAIL retention removed file {f.1}-{f.2} although the backup service has confirmed transactions only up to {h}")
+            | none => (st1, "ok"))
+         | none => (st1, "ok")
+     | none => (st1, "ok"))
   | ["hwm"] =>
+    let st := { st with lastHwm := (fieldOf (words obs) "hwm") >>= String.toNat? }
     -- judged after a sync only: between syncs the suite's operator may take files away from the service
     if st.syncedSince == false then (st, "ok") else
     (match (fieldOf (words obs) "hwm") >>= String.toNat?, svcPosOf st.lastSvc with
@@ -87,7 +111,7 @@ def check (st : St) (op obs : String) : St × String :=
     let st1 := { st with svcBefore := st.lastSvc, posBefore := st.lastState, afterSync := 1, gapBefore := gap, svcAhead := ahead, wasSynced := st.syncedSince, syncedSince := obs.startsWith "ok" }
     if obs.startsWith "ok" then (st1, "ok") else (st1, s!"FAIL a sync against a healthy service failed: {obs.take 60}")
   | "svc-drop-last" :: _ | "svc-clear" :: _ | "svc-put" :: _ | "svc-put-force" :: _ => ({ st with syncedSince := false, afterSync := 0 }, "ok")
-  | "ref" :: _ | ["ltx"] => (st, "ok")
+  | "ref" :: _ | ["age"] => (st, "ok")
   | _ => ({ st with afterSync := 0 }, "ok")      -- anything else may change positions: a pending judgement lapses
 
 def step (st : St) (line : String) : St × String :=
